@@ -17,6 +17,14 @@ macro_rules! opaque {
     )* } }
 }
 opaque!(Transfer, Payload, Disposition, FlowRest, ConnErr, OtherErr);
+// bytes::Bytes as far as these functions may look at it: its length (R11)
+impl Payload {
+    pub uninterp spec fn spec_len(&self) -> nat;
+    #[verifier::external_body]
+    pub fn len(&self) -> (r: usize) ensures r == self.spec_len() { unimplemented!() }
+    #[verifier::external_body]
+    pub fn is_empty(&self) -> (r: bool) ensures r == (self.spec_len() == 0) { unimplemented!() }
+}
 /// session::frame::SessionOutgoingItem
 pub enum SessionOutgoingItem { SingleFrame(SessionFrame), MultipleFrames(Vec<SessionFrame>) }
 #[derive(Clone, Copy)]
